@@ -657,6 +657,41 @@ def r2_latest_arrival_recurrence(F, r):
     chk("future waiting", ok, "waiting = following waiting + max(tw.start - arrival, 0)", "the future waiting time is not `carried waiting + max(window start - arrival, 0)`", fn["bbs"][0]["s"][0].get("ln") if fn["bbs"][0]["s"] else None)
 
 
+def r3_activity_time_formulas(F, r):
+    """SimpleActivityCost: departure = max(arrival, window start) + service duration; latest arrival = min(window end, departure - service duration)"""
+    AC = "vrp_core::models::problem::costs::ActivityCost::"
+    dep = [m for m in F.trait_impl_methods(AC + "estimate_departure") if "SimpleActivityCost" in m]
+    arr = [m for m in F.trait_impl_methods(AC + "estimate_arrival") if "SimpleActivityCost" in m]
+    if len(dep) != 1 or len(arr) != 1:
+        raise AnchorError("SimpleActivityCost::estimate_departure / estimate_arrival")
+    act = ("arg", 3)
+    tw = lambda f: (act, ("*", ".place", ".time", f))
+    dur = (act, ("*", ".place", ".duration"))
+    t = (("arg", 4), ())
+    fn = F.fns[dep[0]]
+    e = mir.expr(fn, {"l": 0, "p": []})
+    ok = e[0][0] == "bin" and e[0][1] == "Add" and dur in e[0][2:4]
+    if ok:
+        other = [x for x in e[0][2:4] if x != dur][0]
+        ok = _is_call(other, "<impl f64>::max") and set(other[0][2]) == {t, tw(".start")}
+    if ok:
+        r.ok("SimpleActivityCost::estimate_departure", "max(arrival, window start) + service duration")
+    else:
+        r.fail("SimpleActivityCost::estimate_departure", "departure is not `max(arrival, time window start) + service duration`: service would start before the window opens, or the "
+               "service time is not accounted", F.loc(dep[0]))
+    fn = F.fns[arr[0]]
+    e = mir.expr(fn, {"l": 0, "p": []})
+    ok = _is_call(e, "<impl f64>::min") and len(e[0][2]) == 2 and tw(".end") in e[0][2]
+    if ok:
+        other = [x for x in e[0][2] if x != tw(".end")][0]
+        ok = other[0][0] == "bin" and other[0][1] == "Sub" and other[0][2] == t and other[0][3] == dur
+    if ok:
+        r.ok("SimpleActivityCost::estimate_arrival", "min(window end, departure - service duration)")
+    else:
+        r.fail("SimpleActivityCost::estimate_arrival", "latest arrival is not `min(time window end, departure - service duration)`: latest arrivals are overestimated and late insertions pass "
+               "the time-window gate", F.loc(arr[0]))
+
+
 HANDOVER = list(typestate.HANDOVER_TRAIT_METHODS) + ["vrp_core::solver::search::recreate::Recreate::run"]
 T1_EXCEPTIONS = {
     "<vrp_core::solver::processing::vicinity_clustering::VicinityClustering as rosomaxa::evolution::HeuristicSolutionProcessing>::post_process":
@@ -736,6 +771,7 @@ def run(ctx):
         ctx.rule("C05-K", "slot refresh rules").broken(str(e))
     ctx.run("C05-R1", "schedule recurrence: arrival/departure/carry of the forward pass and the total duration have their defining form (canonical expressions)", r1_schedule_recurrence, floor=8)
     ctx.run("C05-R2", "latest-arrival / waiting recurrence of the backward pass has its defining form (canonical expressions)", r2_latest_arrival_recurrence, floor=6)
+    ctx.run("C05-R3", "activity time formulas: departure = max(arrival, tw.start) + duration; latest arrival = min(tw.end, departure - duration)", r3_activity_time_formulas, floor=2)
     ctx.run("C05-T1", "typestate: every hand-over function returns only solutions whose routes were accepted after the last mutation", t1_handover, floor=25)
     ctx.run("C05-I1", "tour insertion in evaluator/insertion code is followed by goal.accept_* on every path", i1_insert_then_accept, floor=2)
     ctx.extra["slots"] = {"route": len({o.key for o in kv.ops(F) if o.store == "route"}),
